@@ -151,3 +151,18 @@ _m("C07",
    "remove_hash observes; lost updates between independent processes — none of this is decided by any static check here.",
    "effect-inventory constraints + item facts (statics) ; clauses (a),(b) reuse the C04/C03 analyses",
    "static analysis of necessary conditions only; the schedule quantifier is out of reach of this technique family")
+
+_m("C20",
+   "Every explicit panic / abort site in crate code of every configuration — unwrap/expect on Option/Result, panic!/"
+   "unreachable!/assert! machinery, copy_from_slice/clone_from_slice/split_at, Index/IndexMut, RefCell borrows, "
+   "process::abort/exit, unsafe length contracts (set_len, from_raw_parts), MIR Assert terminators (overflow, bounds, "
+   "division) — is enumerated from MIR and must be discharged by a proof rule re-derived on every run: checked-before "
+   "(same place proved Some/Ok by a dominating gate, no intervening mutation), path-has-parent, const-parse, fixed-hex, "
+   "read-amount / prefix-len, range-full, len-just-set, same-length (symbolic length equality), reserved-before, "
+   "overflow-guarded, lock-poison / join-error (discharged only if the guarded code has no undischarged site), "
+   "stub-unreachable, derive-generated, and the assumption classes well-formed-integrity (named in the property), "
+   "clock-after-epoch and counter-overflow. A site with no applicable rule is reported.",
+   "Hangs / termination of the poll and verify/consume loops; panics raised inside dependencies for inputs the model does not "
+   "cover (e.g. ssri on malformed integrity values found on disk); stack or heap exhaustion; allocation failure.",
+   "MIR panic-site enumeration + per-site discharge rules (dominance, symbolic terms, dependency closure)",
+   "exhaustive static enumeration of explicit panic sites with proof obligations; says nothing about non-termination")
